@@ -135,7 +135,7 @@ PROPS["C07"] = seq(
     level="fault_enumeration")
 
 CON_ASSUME = [
-    "interleavings are explored at park-point granularity (every StoreFile call, key comparison, callback, visitor call, ~20 guarded hook sites, operation boundaries) under sequential consistency; data races that need a torn or reordered memory access are out of reach",
+    "interleavings are explored at park-point granularity (every StoreFile call, key comparison, callback, visitor call, ~20 guarded hook sites, acquisitions of rootLock and the three free-list locks, operation boundaries) under sequential consistency; data races that need a torn or reordered memory access are out of reach",
     "roles follow the README: one mutator, one flusher, N readers per store; the collection set is fixed during the concurrent phase",
     "the scheduler serialises goroutines, so Go's race detector is not part of this check",
     "a clean batch is evidence, not proof: schedules are sampled by a seeded scheduler",
@@ -145,9 +145,11 @@ PROPS["C05"] = {
     "level": "exploration", "engine": "consim", "ready": True, "assumptions": CON_ASSUME,
     "rule": "per run: one store (file-backed over SimDisk, or memory-only), 1-3 collections with prefix-colliding names, pre-loaded and flushed / "
             "evicted / freshly re-opened; tasks: 1 mutator (6-36 Set/SetItem/Delete/EvictSomeItems), 0-1 flusher (1-5 Flushes), 1-4 readers "
-            "(Get, GetItem, Exist, Min/Max, totals, full and partial visits both directions, iterators, Snapshot + reads + Close); every "
+            "(Get, GetItem, Exist, Min/Max, totals, AllocStats, full and partial visits both directions, iterators, Snapshot + reads + "
+            "CopyTo of the snapshot to a fresh disk + Close); every "
             "goroutine runs under a token-passing scheduler inside a testing/synctest bubble, the next goroutine to run is drawn from the "
-            "run's PRNG with per-run task weights, stickiness and armed park-point subsets. Oracles on the recorded history: every read "
+            "run's PRNG with per-run task weights, stickiness and armed park-point subsets; gkvlite's root lock and free-list locks are "
+            "scheduler objects (a goroutine wanting a held lock stays parked; nothing eligible = lock cycle = deadlock). Oracles on the recorded history: every read "
             "equals ONE version current in its [invoke,return] window (whole visits exactly); snapshots one version per collection "
             "consistent over all their reads; no panic, deadlock, error or lost update (final quiescent audit); every concurrent Flush "
             "decodes (decoder and NewStore agree) and its per-collection contents admit capture instants t1<=t2<=... in name order inside the "
